@@ -366,7 +366,14 @@ func rulePublication(c *core.Ctx) {
 				}
 			}
 		}
-		o.Require(appended && decoded, "cacheStoreOrLoad must be given all references and the decoded value")
+		_, refsLocal := ast.Unparen(cs[0].Call.Args[0]).(*ast.Ident)
+		_, valLocal := ast.Unparen(cs[0].Call.Args[2]).(*ast.Ident)
+		if !refsLocal || !valLocal {
+			// the chain or the value is not a local variable of Decode (a field of a helper's result)
+			o.Unrec("the references and the value handed to cacheStoreOrLoad are not local variables: %s", core.ExprStr(cs[0].Call))
+		} else {
+			o.Require(appended && decoded, "cacheStoreOrLoad must be given all references and the decoded value")
+		}
 		// cacheGet before Get
 		cg := callVertices(g, "pdf.(*Extractor).cacheGet")
 		get := callVerticesSuffix(g, ".Get")
@@ -384,7 +391,11 @@ func rulePublication(c *core.Ctx) {
 				okConsult = true
 			}
 		}
-		o.Require(okConsult, "the cache is not consulted before a reference is followed")
+		if len(get) == 0 {
+			o.Unrec("Decode does not fetch the referenced object itself: where the cache is consulted relative to the fetch is not decided")
+		} else {
+			o.Require(okConsult, "the cache is not consulted before a reference is followed")
+		}
 		// no blocking constructs at all
 		ast.Inspect(fn.Decl.Body, func(n ast.Node) bool {
 			switch x := n.(type) {
